@@ -75,7 +75,7 @@ Definition no_eq (_ _ : nat) : bool := false.
 Definition edit_depth (e : elem) (op : Z) (args : list sexp) : nat :=
   match op, args with
   | 0, _ => d_extract
-  | 1, _ => d_decompose
+  | 1, _ => d_decompose e
   | 2, l :: _ => d_insert (glist g_ins l)
   | 3, a :: _ => d_append (g_ins a)
   | 4, l :: _ => d_extend (glist g_ins l)
